@@ -20,3 +20,11 @@ pub fn verif_prefix1_range<A: KeyEnc, T>(m: &Map<(A, &'static str), T>, s: &Stor
         &&& r@.len() == es.len()
         &&& forall|i: int| 0 <= i < es.len() ==> (#[trigger] r@[i]) is Ok && r@[i]->Ok_0.0@ == es[i].0 && r@[i]->Ok_0.1 == es[i].1
     }) { unimplemented!() }
+/// D10 target (no closure): `MAP.prefix(a).range(store, None, None, Order::Ascending).take(limit).collect::<StdResult<Vec<_>>>()`
+#[verifier::external_body]
+pub fn verif_prefix1_collect<A: KeyEnc, T>(m: &Map<(A, &'static str), T>, s: &Storage, p: A, limit: usize) -> (r: Result<Vec<(String, T)>, StdError>)
+    ensures r is Ok ==> ({
+        let es = first_k(prefix1_entries::<T>(s.kv@, m.ns as int, p.key_bytes()), limit as int);
+        &&& r->Ok_0@.len() == es.len()
+        &&& forall|i: int| 0 <= i < es.len() ==> (#[trigger] r->Ok_0@[i]).0@ == es[i].0 && r->Ok_0@[i].1 == es[i].1
+    }) { unimplemented!() }
